@@ -3,6 +3,7 @@ mod c02;
 mod c03;
 mod c11;
 mod codec;
+mod opts;
 mod mem;
 mod part;
 mod cont;
@@ -81,6 +82,19 @@ fn main() {
         "C17" => {
             let mut rep = Report::new("C17", "grid dictionary size x mode x match finder x (lc,lp) for the encoder estimate; dictionary x (lc,lp) for the decoder estimates; peak heap measured by a counting global allocator; .lzma headers x limits need-1/need/need+1; all cases non-trivial; distinct = distinct grid point");
             mem::run(&mut rep, &mut rng, thorough);
+            rep
+        }
+        "C19" => {
+            let mut rep = Report::new("C19", "boundary grid of every public option field (lc, lp, pb, lc+lp, dict_size, nice_len x mode x match finder, depth_limit, preset dictionary length, delta distance, BCJ start offsets, number of filters, block size) x {small, large, empty} input x every writer (LZMA raw/.lzma, LZMA2, XZ, LZIP, LZMA2-MT); each run under catch_unwind; verdict: error, or success with a stream the matching reader decodes to the input");
+            opts::run(&mut rep, &mut rng, thorough, seed, outdir);
+            rep
+        }
+        "C19-point" => {
+            let mut rep = Report::new("C19", "one option point");
+            rep.max_samples = 4;
+            let idx: usize = args.get(5).and_then(|s| s.parse().ok()).unwrap_or(0);
+            // bound the address space of the child: a writer that tries to allocate terabytes must not take the machine down
+            opts::run_point(&mut rep, &mut rng, thorough, idx);
             rep
         }
         "C12" => {
